@@ -197,9 +197,10 @@ var plans = map[string]*Plan{
 	"C02": withDiskFault(0, 3, ctlPlan("C02", 100, 2500, map[string]int64{"io_write": 300, "replica_images_compared": 100},
 		"controller histories for RF 1..5 (RF = worker index mod 5 + 1): bring-up through register/start/add/file-sync/verify, then 10-40 I/O operations each with a fault assignment (ok, error, applied-then-error, timeout, error with monitor event before/after) per attached replica - enumerated round-robin for <=3 attached replicas, sampled with forced corners above - interleaved with replacement replicas, monitor failures, resizes and range probes; "+
 			"per operation: acknowledged => strictly more than half of the attached replicas applied it, failed replicas detached when the call returns; at quiescent points every attached replica holds every acknowledged write; every tenth case instead runs 2-8 concurrent client goroutines (block reads/writes with unique values, replicas with seeded delays, one replica failing half way) and checks the recorded history with porcupine against a register-per-block model (failed writes stay open); non-trivial = case contains a fault assignment; distinct = hash of (RF, membership state, fault vector) sequence")),
-	"C04": withDiskFault(0, 3, ctlPlan("C04", 100, 2500, map[string]int64{"io_read": 500, "read_sweeps": 100},
+	"C04": withDiskFault(0, 3, withCluster(ctlPlan("C04", 100, 2500, map[string]int64{"io_read": 500, "read_sweeps": 100},
 		"C02's histories with reads issued at every position of the round-robin cursor after each change (|readers| consecutive reads), read faults on subsets of the RW replicas, WO replicas holding a poison pattern for everything they were not sent; "+
-			"a read may only reach RW replicas, a successful read equals the model of acknowledged writes, a failed reader is detached and another RW replica serves; non-trivial = case contains a fault assignment; distinct as C02")),
+			"a read may only reach RW replicas, a successful read equals the model of acknowledged writes, a failed reader is detached and another RW replica serves; non-trivial = case contains a fault assignment; distinct as C02"),
+		2, 4, 2, "after every rebuild of a real replica process (kill / stop / stall, interrupted rebuilds, failing file transfers) the whole volume is read once per reader position while the writers are paused: what the freshly promoted replica serves must be every acknowledged write")),
 	"C05": withDiskFault(2, 6, withCluster(ctlPlan("C05", 25, 1250, map[string]int64{"io_write": 200, "settled_points": 300, "rebuild_cycles": 1},
 		"C02's histories; per operation with failing set F (error, lost reply, timeout, monitor event before/after the I/O, process death): if the survivors form a majority and an RW replica is among them the operation is acknowledged, every failed replica is ERR-or-absent when the call returns and absent once its monitor event was consumed, a detached replica receives no further call; non-trivial = case contains a fault assignment; distinct as C02"),
 		2, 8, 3, "SIGKILL / SIGSTOP of one of three real replica processes under write load must not make any write fail, the replica must leave the controller's list, and it comes back only through a rebuild (log evidence of reload-and-verify)")),
